@@ -3,7 +3,7 @@
    (bytes) the harness compares with the implementation's view.  Definitions only. *)
 Require Import AS.Base.Prelude AS.Base.Hex AS.Base.Dec AS.Base.Crc AS.Base.Exchange AS.Base.Utf8 AS.Base.Float AS.Gen.Extracted
   AS.Model.DeviceTools AS.Model.ScheduleTools AS.Model.Remotes AS.Model.Messages AS.Model.Api AS.Model.NextRun AS.Model.ScheduleParser
-  AS.Model.Clock AS.Model.Bridge AS.Model.Lifecycle AS.Model.MultiBridge AS.Model.Ops AS.Model.Session AS.Spec.Session AS.Spec.Client
+  AS.Model.Clock AS.Model.Bridge AS.Model.Lifecycle AS.Model.MultiBridge AS.Model.Ops AS.Model.Session AS.Spec.Session AS.Spec.Client AS.Spec.BridgeHistory
   AS.Spec.Sign AS.Spec.Frame AS.Spec.FrameLayout AS.Spec.Encoders AS.Spec.FrameSpec AS.Spec.NextRun AS.Spec.Remote.
 Local Open Scope string_scope.
 Local Open Scope list_scope.
@@ -290,6 +290,20 @@ Definition e_bridge (ports : list nat) (acts : list arg) : bytes :=
              ++ s2l (match o with ONone => "." | OStarted => "s" | ORaised => "!" | ODelivered => "d" | ODropped => "x" end)
              ++ [124%N]) in
   snd (fold_left step_show acts (init, [])).
+(* the Spec's reading of the same history (Spec/BridgeHistory.v), rendered like e_bridge; actions on OTHER bridge objects (kinds 6, 7)
+   are no part of this object's history: the step shows the unchanged state *)
+Definition e_bridge_spec (ports : list nat) (acts : list arg) : bytes :=
+  let step_show (acc : astate * bytes) (a : arg) :=
+    let '(s, out) := acc in
+    let k := gn (nth_arg (gl a) 0) in let p := gnat (nth_arg (gl a) 1) in
+    let '(s', o) := match k with
+                    | 0%N => a_step ports s AStart | 1%N => a_step ports s AStop | 2%N => a_step ports s (AOccupy p)
+                    | 3%N => a_step ports s (ARelease p) | 4%N => a_step ports s (ASend p) | _ => (s, ONone) end in
+    (s', out ++ s2l (if a_run s' then "R" else "r")
+             ++ concat (map (fun q => s2l (match a_owner ports s' q with Bridge => "B" | Foreign => "F" | Free => "-" end)) ports)
+             ++ s2l (match o with ONone => "." | OStarted => "s" | ORaised => "!" | ODelivered => "d" | ODropped => "x" end)
+             ++ [124%N]) in
+  snd (fold_left step_show acts (a_init, [])).
 (* the same with several bridge objects in the process (Model/MultiBridge.v): object 0 is the bridge under observation, objects 1 and 2
    are configured with the same ports, object 3 with one port of its own (number 999).  Actions [kind, arg]: 0 start, 1 stop (object 0),
    2 occupy, 3 release, 4 send, 6 stop object 1 + arg mod 2, 7 object 3 fails to start (its port is held by a foreign socket meanwhile) *)
@@ -376,6 +390,7 @@ Definition dispatch (f : bytes) (a : list arg) : option bytes :=
   else if is_fn f "build_spec" then Some (e_build_spec (mk_irset (x 0%nat) (x 1%nat) (x 2%nat)) (gl (x 3%nat)))
   else if is_fn f "build_swing" then Some (e_build_swing (mk_remote (x 0%nat) (x 1%nat) (x 2%nat)) (gbool (x 3%nat)))
   else if is_fn f "client_spec" then Some (e_client_spec (gl (x 0%nat)))
+  else if is_fn f "bridge_spec" then Some (e_bridge_spec (glnat (x 0%nat)) (gl (x 1%nat)))
   else if is_fn f "bridge" then Some (e_bridge (glnat (x 0%nat)) (gl (x 1%nat)))
   else if is_fn f "bridge2" then Some (e_bridge2 (glnat (x 0%nat)) (gl (x 1%nat)))
   else if is_fn f "client" then Some (e_client (gl (x 0%nat)))
